@@ -216,7 +216,7 @@ func main() {
 	}
 	tGen := time.Since(t0).Seconds() - tLoad
 	x.finalizeNames()
-	scfg := solveCfg{dir: filepath.Join(outDir, "smt"), fastSecs: 3, fullSecs: 10, jobs: 14, keepFiles: *keep}
+	scfg := solveCfg{dir: filepath.Join(outDir, "smt"), fastSecs: 3, fullSecs: 12, jobs: 10, keepFiles: *keep}
 	if *tier == "thorough" {
 		scfg.fullSecs = 60
 		scfg.confirm = true
